@@ -38,6 +38,7 @@ def run(ck):
     ck.rule('R18.3', 'customwidget class / extends / header come from the class, its first public super class and the header rule')
     ck.rule('R18.4', 'components are registered with their root type and all their imports')
     ck.rule('R18.5', "one source's failure does not decide another source's outputs")
+    ck.rule('R18.6', 'X.qml is type X: the type name is the stem of the path the document is asked for by (shared with C15)')
 
     # ---- R18.1 --------------------------------------------------------------------------
     pd = L.fn('qmldir::populate_directories')
@@ -294,3 +295,10 @@ def run(ck):
             c04.run(sh)
             src = pp(loop['iter'])
             ck.ob('R18.5', 'every-source-visited', 'sources' in src and not re.search(r'\b(skip|take|rev|filter|step_by)\b', src), B.loc(loop), 'iterates %s' % src)
+
+    # ---- R18.6 the type name of a component / source is the stem of its own path (C15 R15.6, same facts) --------------------------------
+    import core as _core6
+    import rules.c15 as c15
+    s15 = _core6.Shared(ck, 'R18.6', lambda r, k: r == 'R15.6', 'C15:', ' [which type a file provides, and what its outputs are called, must not depend on what else was read before it]')
+    c15.run(s15)
+    ck.floor('R18.6', s15.count, 7, 'shared C15 R15.6 obligations')
